@@ -68,6 +68,18 @@ CLAIMS = {
         note="Partial by construction: decides the mechanism, not the outcome of arbitrary modification/request histories. Trusted: os.stat field meanings, email.utils date parsing.",
         ref="DESIGN.md section 3, C14",
     ),
+    "C19": dict(
+        technique="static analysis: API rule on the line splitter (receiver typed by the ServerSentEvent TypedDict), regular-language equality of the folded line-break pattern with {CRLF, CR, LF}, folded shape of the block expression, constant checks of ping/headers, charset provenance",
+        text="Decides for all event texts the clause that made the property fail: the data lines are produced by a splitter whose language is exactly CR, LF, CRLF (str.splitlines on the str data - defect F2, repaired - or any pattern whose automaton differs is a violation with a witness). Also decided: each line is '<field>: <value>' encoded with the response charset, lines joined with LF and a terminating blank line, the ping is a comment block equal on both stacks, Content-Type text/event-stream carries the charset actually used for encoding, Cache-Control no-cache, user headers override. Not decided: conformance of arbitrary event/id text (the statement restricts them to single lines); delivery order is C06.",
+        note="Trusted: re semantics for the pattern subset; the TypedDict annotation for the type of data.",
+        ref="DESIGN.md section 3, C19",
+    ),
+    "C20": dict(
+        technique="static analysis: container-multiplicity rule from the folded behaviour of Headers.__init__, call-count on all paths of from_app, iterator-identity discipline in ensure_next, capture/relay shape of the two callbacks, pass-through shape of the wrappers",
+        text="Decides the structural causes of non-transparency: the inner header list must travel in a multiplicity-preserving container (capturing into Headers(...), which folds repeated names with ', ', is reported at both from_app callbacks - known finding F4); the inner application is called exactly once on every path and only through next_call; the iterator advanced to force the first chunk is the one drained (defect F3, repaired); status is taken unchanged from the start event; on ASGI every body message is pushed once and EOF is signalled exactly when more_body is false; decorator/request_response wrappers call view/handler once and hand the response the original gateway arguments. Not decided: byte equality of streamed bodies, error-before/after-start behaviour.",
+        note="Trusted: iterator protocol semantics.",
+        ref="DESIGN.md section 3, C20",
+    ),
 }
 
 NOT_APPLICABLE = {
